@@ -12,45 +12,21 @@ into one crate that depends on /repo/core and runs `cargo check` once.
 -/
 import Retro.Drv.Common
 import Retro.Model.TypeAlg
+import Retro.Spec.TypeCorpus
 import Std.Data.HashMap
 import Std.Data.HashSet
 
 namespace Retro.Drv.C10
 open Retro Retro.Drv Retro.TypeAlg
 
-/-! ### The fixed context: one variable per interesting type -/
+/-! ### The fixed context: one variable per interesting type (`Retro/Spec/TypeCorpus.lean`) -/
 
-def b1 : Basis := .named 1
-def b2 : Basis := .named 2
-def b3 : Basis := .named 3
-
-def ctx : List (String × Ty) := [
-  ("s",   f32),
-  ("n",   .sc .i32),
-  ("a",   .angle),
-  ("v1",  .vec .f32 3 (.real 3 b1)),
-  ("v2",  .vec .f32 3 (.real 3 b2)),
-  ("w1",  .vec .f32 2 (.real 2 b1)),
-  ("v0",  .vec .f32 3 (.real 3 .unit)),
-  ("p1",  .pt .f32 3 (.real 3 b1)),
-  ("p2",  .pt .f32 3 (.real 3 b2)),
-  ("q1",  .pt .f32 2 (.real 2 b1)),
-  ("vi",  .vec .i32 2 (.real 2 b1)),
-  ("vu",  .vec .u32 2 (.real 2 b1)),
-  ("c1",  .col .f32 3 .rgb),
-  ("c2",  .col .f32 3 .hsl),
-  ("c3",  .col .f32 4 .rgba),
-  ("c4",  .col .u8 3 .rgb),
-  ("m12", .mat 4 (.r2r 3 b1 b2)),
-  ("m21", .mat 4 (.r2r 3 b2 b1)),
-  ("m23", .mat 4 (.r2r 3 b2 b3)),
-  ("mp1", .mat 4 (.r2p b1)),
-  ("mp2", .mat 4 (.r2p b2)),
-  ("n12", .mat 3 (.r2r 2 b1 b2)),
-  ("mu",  .mat 4 .unit)]
-
-def Γ : Ctx := ctx.map (·.2)
-def varName (i : Nat) : String := (ctx.map (·.1)).getD i s!"x{i}"
+def b1 : Basis := TypeCorpus.b1
+def b2 : Basis := TypeCorpus.b2
+def b3 : Basis := TypeCorpus.b3
+def Γ : Ctx := TypeCorpus.Γ
+def ctx : List (String × Ty) := TypeCorpus.ctxNames.zip TypeCorpus.Γ
+def varName (i : Nat) : String := TypeCorpus.ctxNames.getD i s!"x{i}"
 
 /-! ### Rust rendering -/
 
@@ -111,6 +87,7 @@ def rs1 (o : Op1) (A : String) : String :=
   | .toRgb => s!"{A}.to_rgb()" | .toRgba => s!"{A}.to_rgba()" | .toHsl => s!"{A}.to_hsl()"
   | .toHsla => s!"{A}.to_hsla()" | .toLinear => s!"{A}.to_linear()" | .toSrgb => s!"{A}.to_srgb()"
   | .toColor3 => s!"{A}.to_color3()" | .toColor4 => s!"{A}.to_color4()"
+  | .chanR => s!"{A}.r()" | .chanH => s!"{A}.h()" | .compZ => s!"{A}.z()"
   | .render =>
     "render([Tri([0usize, 1, 2])], verts(), &Shader::new(|_p: Point3<B1>, _u: ()| vertex(" ++ A ++
     ", ()), |_f: Frag<()>| rgba(0u8, 0, 0, 0)), (), vp(), &mut fb(), &Context::default())"
@@ -119,6 +96,11 @@ def rs2 (o : Op2) (A B : String) : String :=
   match o with
   | .add => s!"({A} + {B})" | .sub => s!"({A} - {B})" | .mul => s!"({A} * {B})" | .div => s!"({A} / {B})"
   | .mAdd => s!"{A}.add(&{B})" | .mSub => s!"{A}.sub(&{B})" | .mMul => s!"{A}.mul({B})"
+  | .addAssign => "({ let mut t = " ++ A ++ "; t += " ++ B ++ "; t })"
+  | .subAssign => "({ let mut t = " ++ A ++ "; t -= " ++ B ++ "; t })"
+  | .mulAssign => "({ let mut t = " ++ A ++ "; t *= " ++ B ++ "; t })"
+  | .divAssign => "({ let mut t = " ++ A ++ "; t /= " ++ B ++ "; t })"
+  | .vproj => s!"{A}.vector_project(&{B})" | .min => s!"{A}.min({B})"
   | .dot => s!"{A}.dot(&{B})" | .cross => s!"{A}.cross(&{B})" | .distance => s!"{A}.distance(&{B})"
   | .apply => s!"{A}.apply(&{B})" | .applyPt => s!"{A}.apply_pt(&{B})"
   | .compose => s!"{A}.compose(&{B})" | .thn => s!"{A}.then(&{B})"
@@ -177,12 +159,14 @@ def op1Names : List (String × Op1) := [
   ("toCart", .toCart), ("toPolar", .toPolar), ("toSpherical", .toSpherical), ("az", .az),
   ("toRgb", .toRgb), ("toRgba", .toRgba), ("toHsl", .toHsl), ("toHsla", .toHsla),
   ("toLinear", .toLinear), ("toSrgb", .toSrgb), ("toColor3", .toColor3), ("toColor4", .toColor4),
+  ("chanR", .chanR), ("chanH", .chanH), ("compZ", .compZ),
   ("render", .render)]
 
 def op2Names : List (String × Op2) := [
   ("add", .add), ("sub", .sub), ("mul", .mul), ("div", .div),
   ("mAdd", .mAdd), ("mSub", .mSub), ("mMul", .mMul),
-  ("dot", .dot), ("cross", .cross), ("distance", .distance),
+  ("addAssign", .addAssign), ("subAssign", .subAssign), ("mulAssign", .mulAssign), ("divAssign", .divAssign),
+  ("dot", .dot), ("cross", .cross), ("distance", .distance), ("vproj", .vproj), ("min", .min),
   ("apply", .apply), ("applyPt", .applyPt), ("compose", .compose), ("then", .thn),
   ("polar", .polar), ("atan2", .atan2), ("pairOf", .pairOf)]
 
@@ -431,7 +415,7 @@ def progLine (p : Prog) : String :=
 /-- rustc error codes that are type / trait / visibility errors. -/
 def typeErrorCodes : List String :=
   ["E0277", "E0308", "E0369", "E0599", "E0271", "E0282", "E0283", "E0600", "E0614", "E0423",
-   "E0616", "E0609", "E0610", "E0061", "E0107", "E0284", "E0631", "E0603", "E0618", "E0605"]
+   "E0616", "E0609", "E0610", "E0061", "E0107", "E0284", "E0631", "E0603", "E0618", "E0605", "E0368", "E0067"]
 
 def handle (case impl : List String) : Retro.Drv.Verdict :=
   match case with
@@ -475,6 +459,25 @@ def emit (args : List String) : IO UInt32 := do
     out.putStrLn (progLine p)
   return 0
 
+/-- The hand-written corpus of misuse / twin pairs as case lines (`corpus/C10/pairs.case`). -/
+def corpus : IO UInt32 := do
+  let mut i := 0
+  let mut bad := 0
+  IO.println "# C10 corpus: one minimal program per misuse class and API entry point, each followed by its twin."
+  IO.println "# Generated by `lean/.lake/build/bin/drv_c10 corpus` from lean/Retro/Spec/TypeCorpus.lean; do not edit."
+  for p in TypeCorpus.pairs do
+    IO.println s!"# {p.label}"
+    IO.println (progLine { id := 900000 + 2 * i, e := p.bad, v := classify Γ p.bad })
+    IO.println (progLine { id := 900001 + 2 * i, e := p.good, v := classify Γ p.good })
+    if classify Γ p.bad != .misuse p.cls then
+      bad := bad + 1
+      IO.eprintln s!"pair '{p.label}': model does not classify the misuse as {p.cls.name}"
+    match classify Γ p.good with
+    | .accept _ => pure ()
+    | _ => bad := bad + 1; IO.eprintln s!"pair '{p.label}': model does not accept the twin"
+    i := i + 1
+  return (if bad == 0 then 0 else 1)
+
 def stats : IO UInt32 := do
   let ps := allProgs ()
   let cnt (f : Prog → Bool) := (ps.filter f).length
@@ -492,8 +495,9 @@ def main (args : List String) : IO UInt32 :=
     IO.println ("PARAMS " ++ params)
     return 0
   | ["stats"] => stats
+  | ["corpus"] => corpus
   | _ => do
-    IO.eprintln "usage: drv_c10 [emit <tier> <seed> | prelude | stats]"
+    IO.eprintln "usage: drv_c10 [emit <tier> <seed> | prelude | corpus | stats]"
     return 2
 
 end Retro.Drv.C10
